@@ -355,9 +355,9 @@ func (t QualifiedRule) serializeTo(writer io.StringWriter) {
 }
 
 func (t AtRule) serializeTo(writer io.StringWriter) {
-	writer.WriteString("@")
-	writer.WriteString(serializeIdentifier(t.AtKeyword))
-	serializeTo(t.Prelude, writer)
+	// the at-keyword takes part in the separator table with the first token of the prelude
+	tokens := append([]Token{AtKeyword{stringVal{Value: t.AtKeyword}}}, t.Prelude...)
+	serializeTo(tokens, writer)
 	if t.Content == nil {
 		writer.WriteString(";")
 	} else {
